@@ -181,6 +181,13 @@ def run(ctx):
         ctx.cov["evaluations"] = locksets(ctx, 1)
         ctx.cov["rule"] = "replay of one script"
         return
+    if area == "lock":          # a replay of the locker-contract stream
+        from checks import c15
+        ctx.cov["trusted_base"] = TRUSTED
+        ctx.l1()
+        ctx.cov["evaluations"] = c15.contract_for(ctx, "C02", 1)
+        ctx.cov["rule"] = "replay of one op sequence through the real DefaultLocker"
+        return
     run_check(ctx, 'C02', ["floor"], lambda scn, run: concurrent(scn, run) and sum(1 for q in scn["requests"] if q["kind"] in ("create", "revert") and not q.get("dry")) >= 2, 'two requests that move funds overlapped in time')
     if area == "engine":
         return
@@ -189,6 +196,11 @@ def run(ctx):
     n = locksets(ctx, 1500 if ctx.quick else 40000)
     ctx.cov["evaluations"] = ctx.cov["engine_evaluations"] + n
     ctx.cov["rule"] += ("; plus the lock-set stream: " + ctx.cov.get("locksets", {}).get("rule", ""))
+    # the real account locker is held to the contract the engine runs assume of it (exclusion, wake-ups, clean cancellation)
+    from checks import c15
+    n2 = c15.contract_for(ctx, "C02", 250 if ctx.quick else 20000)
+    ctx.cov["evaluations"] += n2
+    ctx.cov["rule"] += "; plus the locker-contract stream: " + ctx.cov.get("locker_contract", {}).get("rule", "")
     # how many engine requests name the debited account twice
     try:
         reqs = [q for s in read_jsonl(ctx.path("engine.in.jsonl")) for q in s["requests"] if q.get("kind") == "create"]
